@@ -103,6 +103,10 @@ type Rec struct {
 	openStmt int32
 	openConn int32
 
+	// LastInsertFirst makes Result.LastInsertId report the FIRST row id of a multi-row insert
+	// (the convention of e.g. MySQL) instead of SQLite's last row id.
+	LastInsertFirst bool
+
 	// parking: if set, called before the inner call for every event (outside r.mu)
 	Park func(e *Event)
 }
@@ -296,7 +300,21 @@ func (c *conn) ExecContext(ctx context.Context, q string, args []driver.NamedVal
 	}
 	res, err := c.in.ExecContext(ctx, q, args)
 	c.r.post(idx, err)
+	if err == nil && c.r.LastInsertFirst {
+		res = firstID{res}
+	}
 	return res, err
+}
+
+type firstID struct{ driver.Result }
+
+func (f firstID) LastInsertId() (int64, error) {
+	id, err := f.Result.LastInsertId()
+	n, _ := f.Result.RowsAffected()
+	if err == nil && n > 1 {
+		id -= n - 1
+	}
+	return id, err
 }
 
 func (c *conn) QueryContext(ctx context.Context, q string, args []driver.NamedValue) (driver.Rows, error) {
